@@ -28,6 +28,8 @@ def build(case):
         gcheck.junk(s)
     fn = graph.active_vertices_not_adjacent_and_not_segmenting if case["seg"] else graph.active_vertices_not_adjacent
     route = case["route"]
+    if case.get("before"):
+        gcheck.warm_grid(tuple(case["before"]))
     if route == "grid":
         h, w = case["shape"]
         a = s.bool_array((h, w))
@@ -41,7 +43,17 @@ def build(case):
         return s, list(a)
     g = gcheck.make_graph(case["n"], case["edges"], case.get("grown"))
     a = s.bool_array(case["n"])
-    if case.get("aslist") and not case["seg"]:
+    ff = case.get("flagform")
+    if ff == "nested":
+        from cspuz.array import BoolArray1D
+
+        sel = s.bool_var()
+        fn(s, BoolArray1D([(x & sel) | (x & ~sel) for x in a]), g)  # activity given as nested expressions equivalent to the variables
+    elif ff == "neg":
+        from cspuz.array import BoolArray1D
+
+        fn(s, BoolArray1D([~x for x in a]), g)  # the caller fixes the inverted values
+    elif case.get("aslist") and not case["seg"]:
         fn(s, list(a), g)
     else:
         fn(s, a, g)
@@ -131,7 +143,26 @@ def diagonal_chains(h, w, budget=200000):
     return out
 
 
+def run_layers(part, case):
+    from cspuz import graph
+
+    n, edges = case["n"], case["edges"]
+    fn = graph.active_vertices_not_adjacent_and_not_segmenting if case["seg"] else graph.active_vertices_not_adjacent
+
+    def post(s, g):
+        a = s.bool_array(n)
+        fn(s, a, g)
+        return list(a)
+
+    menu = [[False] * n, [v == 0 for v in range(n)], [v == n - 1 for v in range(n)], [v in (0, n - 1) for v in range(n)], [v % 3 == 0 for v in range(n)], [v in (1, 4) for v in range(n)]]
+    gcheck.run_two_layers(part, "%s[two-layers]" % ("segmenting" if case["seg"] else "not_adjacent"), case, post, n, lambda p: oracle(n, edges, p, case["seg"]), menu)
+    part.add("restricted", ("layers", n, len(edges)))
+
+
 def run_case(part, case, prange=None):
+    if case.get("layers"):
+        run_layers(part, case)
+        return
     if "shape" in case:
         h, w = case["shape"]
         n = h * w
@@ -165,10 +196,14 @@ def run_case(part, case, prange=None):
             gcheck.judge(part, key + "{independent-sets}", case, pattern, exp, s, [gcheck.fix(v, b) for v, b in zip(a, pattern)])
         part.add("restricted", (h, w, lo, hi))
         return
-    for pattern in gcheck.patterns(n, prange):
+    pats = [tuple(bool(b) for b in p) for p in case["patterns"]] if "patterns" in case else gcheck.patterns(n, prange)
+    for pattern in pats:
         exp = oracle(n, edges, pattern, case["seg"])
-        gcheck.judge(part, key, case, pattern, exp, s, [gcheck.fix(v, b) for v, b in zip(a, pattern)])
-    part.add("graphs", (n, tuple(edges)))
+        gcheck.judge(part, key, case, pattern, exp, s, [gcheck.fix(v, (not b) if case.get("flagform") == "neg" else b) for v, b in zip(a, pattern)])
+    if "patterns" in case:
+        part.add("restricted", ("history", tuple(case.get("shape", ())), tuple(case.get("before", ()))))
+    else:
+        part.add("graphs", (n, tuple(edges)))
 
 
 def cases_for(tier):
@@ -190,6 +225,20 @@ def cases_for(tier):
             continue
         for seg in (False, True):
             out.append({"route": "graph", "n": n, "edges": es, "seg": seg, "name": name})
+    # activity given as expressions; two layers on one Graph object and Solver; board histories
+    for n, es in gcheck.layer_graphs():
+        for seg in (False, True):
+            for ff in ("nested", "neg"):
+                if n <= 4 or ff == "nested":
+                    out.append({"route": "graph", "n": n, "edges": list(es), "seg": seg, "flagform": ff})
+            out.append({"route": "graph", "n": n, "edges": list(es), "seg": seg, "layers": 2, "patterns": []})
+    for a, b in gcheck.grid_history_pairs(tier):
+        h, w = b
+        cells = [(y, x) for y in range(h) for x in range(w)]
+        pats = [[False] * (h * w), [c in ((0, 0), (h - 1, w - 1)) for c in cells], [(y + x) % 2 == 0 for (y, x) in cells], [x == w // 2 and y % 2 == 0 for (y, x) in cells],
+                [y == h // 2 and x % 2 == 0 for (y, x) in cells], [(y, x) in ((0, 1), (1, 0)) for (y, x) in cells]]
+        for route in ("grid", "grid-as-graph"):
+            out.append({"route": route, "shape": [h, w], "seg": True, "before": list(a), "patterns": pats})
     maxcells = 9 if tier == "quick" else 12
     shapes = graphref.grid_shapes(maxcells)
     if tier != "quick":
@@ -263,7 +312,7 @@ def main(tier, seed, only=None):
         "(+ inactive vertices induce a connected subgraph)." % (4 if tier == "quick" else 5, 9 if tier == "quick" else 12, "" if tier == "quick" else ", 1x13, 1x14 and transposes", "4x5" if tier == "quick" else "4x6, 5x5, 3x7, 2x9"),
     )
     run.assumptions = ["implementation under test = encoding + cspuz z3 backend", "empty inactive set counts as connected (as in C04)"]
-    shards = gcheck.split_shards(cases, lambda c: 60 if c.get('family') == 'chains' else len(independent_sets(*c['shape'])) if c.get('family') else 1 << (c['n'] if 'n' in c else c['shape'][0] * c['shape'][1]), 400)
+    shards = gcheck.split_shards(cases, lambda c: 40 * max(1, len(c['patterns'])) if 'patterns' in c else 60 if c.get('family') == 'chains' else len(independent_sets(*c['shape'])) if c.get('family') else 1 << (c['n'] if 'n' in c else c['shape'][0] * c['shape'][1]), 400)
     first, rest = gcheck.heavy_first(shards, _CASES)
     par.run_shards(run, worker, rest, seed, first=first)
     cov = {
